@@ -285,4 +285,19 @@ PLAN = {
             {"name": "miri", "flavour": "miri", "shards": 4, "shards_thorough": 32, "miriflags": TB + " " + IGN, "timeout": 1500},
         ],
     },
+    "C17": {
+        "level": "exploration",
+        "rule": "seeded scripts (4-19 top-level ops, nesting <= 3, 1-3 threads under one subscriber) over 7 compiled span shapes (shared "
+                "field names across shapes, Empty fields recorded later, str/bool/i64/u64/f64/Debug/Display values), contextual / explicit / "
+                "root parents, record() of declared and undeclared fields, and emissions of 3 kinds with 0-2 own labels overlapping span "
+                "fields; filters: include-all, allow-lists, a custom filter. After each emission the key received by the inner logging "
+                "recorder is compared with a reference (own labels + admitted fields of the current span as of its creation chain, metric > "
+                "inner > outer, later record replaces, no duplicate names, unchanged without span). distinct = script+filter hash; "
+                "non-trivial = a span inherited fields from a parent.",
+        "assumptions": ["re-entering a span that is already on the thread's span stack is not generated (tracing keeps the previous current span there)"],
+        "legs": [
+            {"name": "native", "flavour": "native", "shards": 4, "shards_thorough": 16},
+            {"name": "asan", "flavour": "asan", "shards": 2, "shards_thorough": 8, "thorough_only": True},
+        ],
+    },
 }
